@@ -85,6 +85,28 @@ pub struct Delivered {
     pub spec_kind: &'static str,
     /// index into `Env::trace` of the delivery event
     pub at: usize,
+    /// reference `last_down` before this frame was judged
+    pub last_before: Option<u32>,
+    /// was a reference session present when the frame was judged
+    pub joined_before: bool,
+}
+
+/// Structured form of an nb_device response (for the oracles).
+#[derive(Clone, Copy, Debug, PartialEq, Eq)]
+pub enum RespCode {
+    NoUpdate,
+    TimeoutRequest(u32),
+    UplinkSending,
+    JoinSuccess,
+    NoJoinAccept,
+    Downlink(u32),
+    NoAck,
+    RxComplete,
+    SessionExpired,
+    ReadyToSend,
+    ErrRadio,
+    ErrState,
+    ErrMac,
 }
 
 #[derive(Clone, Debug)]
@@ -103,7 +125,7 @@ pub enum Ev {
     NbRxRequest { rf: Rf, ok: bool, pos: u16 },
     NbCancelRx { ok: bool, pos: u16 },
     NbPhy { what: String, pos: u16 },
-    NbEvent { ev: String, resp: String, now: u64 },
+    NbEvent { ev: String, resp: String, now: u64, code: RespCode },
     Deliver { win: Win, len: usize, verdict: String, spec: &'static str },
     Downlink { port: u8, data: Vec<u8> },
     Fault { kind: &'static str, pos: u16 },
@@ -155,7 +177,7 @@ impl Ev {
             Ev::NbRxRequest { rf, ok, pos } => format!("  [{pos}] RxRequest {} ok={ok}", rf.short()),
             Ev::NbCancelRx { ok, pos } => format!("  [{pos}] CancelRx ok={ok}"),
             Ev::NbPhy { what, pos } => format!("  [{pos}] Phy {what}"),
-            Ev::NbEvent { ev, resp, now } => format!("  t={now} event {ev} -> {resp}"),
+            Ev::NbEvent { ev, resp, now, .. } => format!("  t={now} event {ev} -> {resp}"),
             Ev::Deliver { win, len, verdict, spec } => format!("  ether delivers {spec} frame ({len}B) in {win:?}: reference says {verdict}"),
             Ev::Downlink { port, data } => format!("  app takes downlink port={port} data={}", hx(data)),
             Ev::Fault { kind, pos } => format!("  FAULT {kind} at radio call {pos}"),
@@ -522,6 +544,9 @@ impl Env {
         let Some(sess) = &self.refs else {
             return Verdict::Reject("no-session");
         };
+        if rf.is_none() {
+            return Verdict::Unspecified("no-window-configured");
+        }
         if p.is_uplink() {
             // a reflected uplink-type frame can only verify if it is one of the device's own uplinks
             return if rc::mic_ok(bytes, &p, &sess.keys.nwk, cand_counter(sess.last_down, p.fcnt16).unwrap_or(p.fcnt16 as u32)) {
@@ -530,14 +555,14 @@ impl Env {
                 Verdict::Reject("uplink-type")
             };
         }
-        if p.major != 0 {
-            return Verdict::Unspecified("major-version");
-        }
         let Some(n) = cand_counter(sess.last_down, p.fcnt16) else {
             return Verdict::Reject("counter-not-fresh");
         };
         if !rc::mic_ok(bytes, &p, &sess.keys.nwk, n) {
             return Verdict::Reject("mic");
+        }
+        if p.major != 0 {
+            return Verdict::Unspecified("major-version");
         }
         if p.devaddr != sess.keys.devaddr {
             return Verdict::Unspecified("own-key-other-address");
@@ -559,6 +584,8 @@ impl Env {
         let bytes = self.materialise(spec);
         let rf = self.cur_rx;
         let class_a = matches!(win, Win::Rx1 | Win::Rx2);
+        let last_before = self.refs.as_ref().and_then(|s| s.last_down);
+        let joined_before = self.refs.is_some();
         let verdict = self.judge(&bytes, rf, class_a);
         let n = bytes.len().min(buf.len());
         buf[..n].copy_from_slice(&bytes[..n]);
@@ -566,7 +593,7 @@ impl Env {
         self.push(Ev::Deliver { win, len: bytes.len(), verdict: verdict.short(), spec: spec.kind() });
         self.now_ms += 1;
         let op = self.op_idx;
-        self.delivered.push(Delivered { op, win, rf, bytes, verdict, spec_kind: spec.kind(), at });
+        self.delivered.push(Delivered { op, win, rf, bytes, verdict, spec_kind: spec.kind(), at, last_before, joined_before });
         n
     }
 
